@@ -192,9 +192,10 @@ class EnumMember:
 
 
 class FuncVal:
-    __slots__ = ("module", "node", "closure", "name", "qualname", "cls", "decorators")
+    __slots__ = ("module", "node", "closure", "name", "qualname", "cls", "decorators", "attrs")
 
     def __init__(self, module, node, closure=None, cls=None, qualname=None):
+        self.attrs = {}            # function attributes (f.terminal = True): they live as long as the function object does
         self.module = module
         self.node = node
         self.closure = closure
